@@ -161,18 +161,20 @@ class Model:
         self.memo = {}
         self.transitions = 0
 
-    def key(self, labels, spreads, repop, script):
+    def key(self, labels, spreads, repop, script, args=None):
         sp = None if spreads is None else tuple(bits(s) for s in spreads)
-        return (tuple(labels), sp, bool(repop), tuple(script))
+        return (tuple(labels), sp, bool(repop), tuple(script), None if args is None else seams.digest_args(args))
 
-    def F(self, labels, spreads, repop, script):
-        k = self.key(labels, spreads, repop, script)
+    def F(self, labels, spreads, repop, script, args=None):
+        """args: the hyper-parameter bundle the real run's states carry (what the
+        front end handed to the main loop); default: the driver's own"""
+        k = self.key(labels, spreads, repop, script, args)
         if k in self.memo:
             return self.memo[k]
         from fast_ticc.containers import model_state
         o = TRACER.orig
         d = self.d
-        m = model_state.ModelState.empty_model(d.user_args(1), d.X)
+        m = model_state.ModelState.empty_model(d.user_args(1) if args is None else args.shallow_copy(), d.X)
         m.point_labels = [int(x) for x in labels]
         if spreads is not None:
             for c, s in zip(m.clusters, spreads):
@@ -213,11 +215,14 @@ def conformance(rec, model):
     cur = tuple(int(x) for x in rec.init)
     spreads = None
     rounds = rec.rounds
+    run_args = None
+    if rounds and "stats" in rounds[0] and rounds[0]["stats"].get("in") is not None:
+        run_args = rounds[0]["stats"]["in"].arguments
     for i, rd in enumerate(rounds):
         if "relabel" not in rd or "out" not in rd.get("relabel", {}):
             break       # the real run raised in this round; judged elsewhere
         script = tuple(c for (_n, _k, c) in rd["repop"].get("sampler_used", [])) if "repop" in rd else ()
-        out = model.F(cur, spreads, i > 0, script)
+        out = model.F(cur, spreads, i > 0, script, run_args)
         states.append((cur, None if spreads is None else tuple(bits(s) for s in spreads)))
         real = rd["relabel"]["out"]
         if out[0] != "ok":
